@@ -1036,6 +1036,17 @@ def run_importance(ctx, tie, cfg):
                                 tie.add(f"flow ifp_draw {fn} {rat(lj[i])} {pairs(bl, i)}", [float(v) for v in lq[i]],
                                         float(max(tm, (tol[i] / (1 + np.abs(lq_f[i]))).max())),
                                         {"case": case, "i": i, "op": "draw", "level": level})
+                    # the array-level interface on LARGE arrays: every row of log_prob_all is that point's density under every
+                    # flow, whatever the size of the call (batched evaluation with a dropped remainder: seeded changes C12-fA/fB
+                    # at 10^4 rows, C08-hA at 5·10^4; sizes straddle both)
+                    if level == cfg["levels"] - 1 and flow_number is None:
+                        for big in (10_001, 120_001):
+                            reps = -(-big // len(xpp))
+                            xb = np.tile(xpp, (reps, 1))[:big]
+                            lb = p.flow.log_prob_all(xb)
+                            ref = np.tile(p.flow.log_prob_all(xpp), (reps, 1))[:big]
+                            O.close("ImportanceFlowModel.log_prob_all:large-array", f"log_prob_all on {big} rows differs from the same "
+                                    "points evaluated in a small call", lb, ref, tm * (1 + np.abs(ref)), None)
                     # ImportanceFlowModel: log_prob_ith agrees with log_prob_all, column by column
                     la = p.flow.log_prob_all(xpp)
                     for k in range(len(flows)):
